@@ -98,7 +98,7 @@ def gen_entry(rnd, hostile):
         e["platform"] = list(p)
     if hostile and rnd.random() < 0.45:
         h = rnd.choice(HOSTILE)
-        f = rnd.choice(["command", "description", "niche", "keyword", "platform", "long", "longmb"])
+        f = rnd.choice(["command", "description", "niche", "keyword", "platform", "long", "longmb", "mbshort"])
         if f == "command":
             e["command"] += " " + h
         elif f == "description":
@@ -111,6 +111,9 @@ def gen_entry(rnd, hostile):
             e["platform"] = (e.get("platform") or ["linux"]) + [h.replace("\n", " ")]
         elif f == "long":
             e["command"] += " " + " ".join(rnd.choice(WORDS) for _ in range(8))
+        elif f == "mbshort":  # long in bytes, short in characters: byte- and rune-based truncation disagree
+            e["command"] = e["command"].split(" ")[0] + " " + "".join(rnd.choice("日本語検索結果表示") for _ in range(rnd.randint(16, 22)))
+            e["niche"] = "".join(rnd.choice("分類名前") for _ in range(rnd.randint(9, 14)))
         else:  # multi-byte characters around the table's cut offset (45 bytes)
             e["command"] = (e["command"] + " ")[:40].ljust(40, "x") + "日本語ééé " + rnd.choice(WORDS)
             e["niche"] = "café-" * 4 + "éééé"
